@@ -456,7 +456,7 @@ fn gen_scenario(r: &mut Rng, max_utxos: u64) -> Case {
         c.label = "sw".to_string();
         c.strat = 1;
         for o in c.outs.iter_mut() { o.val.ma = None; }
-        c.deposit = c.outs.iter().map(|o| o.val.coin / 2).sum::<u64>() / 2 + r.range(0, 2_000_000);
+        c.deposit = ((c.outs.iter().map(|o| (o.val.coin / 2) as u128).sum::<u128>() / 2).min(1u128 << 62)) as u64 + r.range(0, 2_000_000);
     }
     // pre-step boundary: no input yet, the implicit input covers outputs + fee exactly (plus a small delta), and the
     // UTxO the pre-step takes (the last offered one) is worth about as much as its own fee
@@ -509,7 +509,7 @@ fn enumerate(c: &Case, cap: usize, mut f: impl FnMut(&Case, &str)) -> (usize, bo
 }
 
 fn main() {
-    silence_panics();
+    if std::env::var("C08_SHOW_PANICS").is_err() { silence_panics(); }
     let args: Vec<String> = std::env::args().collect();
     let mut orc = Oracle::start();
     if args.len() >= 3 && args[1] == "gen" {
